@@ -55,6 +55,46 @@ func ApplyUnifiedDiff(repoDir, diff string) (map[string][]byte, error) {
 			if start > 0 {
 				start--
 			}
+			// the old side of the hunk (context and removed lines); like patch(1), look for it near the
+			// recorded position when the file has moved on since the diff was taken
+			var oldSide []string
+			for k := i + 1; k < len(lines); k++ {
+				h := lines[k]
+				if strings.HasPrefix(h, "@@ ") || strings.HasPrefix(h, "diff ") || strings.HasPrefix(h, "--- ") {
+					break
+				}
+				if strings.HasPrefix(h, " ") || strings.HasPrefix(h, "-") {
+					oldSide = append(oldSide, h[1:])
+				}
+			}
+			matchAt := func(at int) bool {
+				if at < pos || at+len(oldSide) > len(src) {
+					return false
+				}
+				for k, want := range oldSide {
+					if src[at+k] != want {
+						return false
+					}
+				}
+				return true
+			}
+			if !matchAt(start) {
+				found := -1
+				for d := 1; d < len(src); d++ {
+					if matchAt(start + d) {
+						found = start + d
+						break
+					}
+					if matchAt(start - d) {
+						found = start - d
+						break
+					}
+				}
+				if found < 0 {
+					return nil, fmt.Errorf("hunk for %s (recorded at line %d) does not match the current source", cur, start+1)
+				}
+				start = found
+			}
 			if start < pos {
 				return nil, fmt.Errorf("overlapping hunks")
 			}
